@@ -10,6 +10,7 @@ import (
 	"regexp"
 	"strconv"
 	"strings"
+	"unicode/utf8"
 
 	"verif/internal/ev"
 	"verif/internal/lite"
@@ -160,7 +161,7 @@ func SQLLit(v interface{}) string {
 		s := strconv.FormatFloat(t, 'e', 17, 64)
 		return s
 	case string:
-		if strings.IndexByte(t, 0) >= 0 {
+		if strings.IndexByte(t, 0) >= 0 || !utf8.ValidString(t) {
 			return "CAST(x'" + hex.EncodeToString([]byte(t)) + "' AS TEXT)"
 		}
 		return "'" + strings.ReplaceAll(t, "'", "''") + "'"
